@@ -34,6 +34,7 @@ func runC04(c *Ctx) {
 	type reqT struct {
 		T       *types.Named
 		payload string
+		memo    string // the field that memoises the size
 	}
 	var reqs []reqT
 	for _, path := range []string{pkgEH, pkgXEH} {
@@ -52,18 +53,16 @@ func runC04(c *Ctx) {
 			if !ok {
 				continue
 			}
-			has := false
+			// the request types are recognised by their shape (a pdata payload and the memoised size next to it),
+			// not by the names of their fields
 			payload := ""
 			for i := 0; i < st.NumFields(); i++ {
-				if st.Field(i).Name() == "cachedSize" {
-					has = true
-				}
 				if n := namedOf(st.Field(i).Type()); n != nil && n.Obj().Pkg() != nil && strings.HasPrefix(n.Obj().Pkg().Path(), pkgPdata+"/") {
 					payload = st.Field(i).Name()
 				}
 			}
-			if has && payload != "" {
-				reqs = append(reqs, reqT{tn.Type().(*types.Named), payload})
+			if mi := requestMemoField(st); mi >= 0 && payload != "" {
+				reqs = append(reqs, reqT{tn.Type().(*types.Named), payload, st.Field(mi).Name()})
 			}
 		}
 	}
@@ -74,6 +73,7 @@ func runC04(c *Ctx) {
 		c.Rule("R2", "", "", 0)
 		c.Undecided("request types", "-", fmt.Sprintf("expected 4 request types with a cached size, found %d", len(reqs)))
 	}
+	mergeCand, mergeSeen := map[*types.Named][]*ssa.Function{}, map[*types.Named]bool{}
 	for _, r := range reqs {
 		pk := p.ByPath[r.T.Obj().Pkg().Path()]
 		tag := "[" + r.T.Obj().Name() + "] "
@@ -87,12 +87,12 @@ func runC04(c *Ctx) {
 				if !ok {
 					return
 				}
-				bo, ok := iff.Cond.(*ssa.BinOp)
-				if !ok || bo.Op != token.GTR {
-					return
-				}
-				call, ok := bo.X.(*ssa.Call)
-				if !ok || staticCalleeFn(call) == nil || recvNamedOfFn(staticCalleeFn(call)) != r.T {
+				// `req.size(sz) > max` in any equivalent spelling (swapped operands, negated with swapped branches);
+				// the loop continues on the side where the size exceeds
+				call, exceedsOnTrue := sizeExceedsCond(iff.Cond, func(cl *ssa.Call) bool {
+					return staticCalleeFn(cl) != nil && recvNamedOfFn(staticCalleeFn(cl)) == r.T
+				})
+				if call == nil {
 					return
 				}
 				hdr := iff.Block()
@@ -100,45 +100,80 @@ func runC04(c *Ctx) {
 				if h2 != hdr {
 					return
 				}
+				if cont := hdr.Succs[0]; (exceedsOnTrue && !body[cont]) || (!exceedsOnTrue && !body[hdr.Succs[1]]) {
+					return
+				}
 				c.Rule("R2", "", "", 0)
-				// extraction calls in the body
-				var ext []*ssa.Call
-				for b := range body {
-					for _, bi := range b.Instrs {
-						if ec, ok := bi.(*ssa.Call); ok {
-							if cf := staticCalleeFn(ec); cf != nil && cf.Pkg == fn.Pkg && recvNamedOfFn(cf) == nil && strings.HasPrefix(cf.Name(), "extract") {
-								ext = append(ext, ec)
+				// extraction calls in the body – or in the helpers of the package the body calls (`req.extractNext(max, sz)`
+				// holding the extraction and its fallback): a region is the loop body or the whole of such a helper
+				type region struct {
+					blocks map[*ssa.BasicBlock]bool
+					inLoop bool
+				}
+				regions := []region{{body, true}}
+				seenFn := map[*ssa.Function]bool{fn: true}
+				for ri := 0; ri < len(regions) && ri < 6; ri++ {
+					for b := range regions[ri].blocks {
+						for _, bi := range b.Instrs {
+							ec, ok := bi.(*ssa.Call)
+							if !ok {
+								continue
 							}
+							cf := staticCalleeFn(ec)
+							if cf == nil || cf.Pkg != fn.Pkg || len(cf.Blocks) == 0 || seenFn[cf] || isExtractionFn(cf, fn.Pkg) {
+								continue
+							}
+							if _, isClosure := ec.Call.Value.(*ssa.MakeClosure); isClosure {
+								continue
+							}
+							seenFn[cf] = true
+							hb := map[*ssa.BasicBlock]bool{}
+							for _, b2 := range cf.Blocks {
+								hb[b2] = true
+							}
+							regions = append(regions, region{hb, false})
 						}
 					}
 				}
 				guard := false
-				for b := range body {
-					bi, ok := b.Instrs[len(b.Instrs)-1].(*ssa.If)
-					if !ok || bi == iff {
-						continue
-					}
-					// the condition depends on an extraction result
-					dep := false
-					for v := range backSlice(bi.Cond) {
-						for _, ec := range ext {
-							if v == ssa.Value(ec) {
-								dep = true
+				for _, rg := range regions {
+					var ext []*ssa.Call
+					for b := range rg.blocks {
+						for _, bi := range b.Instrs {
+							if ec, ok := bi.(*ssa.Call); ok {
+								if isExtractionFn(staticCalleeFn(ec), fn.Pkg) {
+									ext = append(ext, ec)
+								}
 							}
 						}
 					}
-					if !dep {
-						continue
-					}
-					// one side leaves the loop, or contains a second extraction (fallback)
-					for _, s := range b.Succs {
-						if !body[s] {
-							guard = true
+					for b := range rg.blocks {
+						bi, ok := b.Instrs[len(b.Instrs)-1].(*ssa.If)
+						if !ok || bi == iff {
+							continue
 						}
-						for _, ec := range ext {
-							if s == ec.Block() || s.Dominates(ec.Block()) {
-								if len(ext) > 1 {
-									guard = true
+						// the condition depends on an extraction result
+						dep := false
+						for v := range backSlice(bi.Cond) {
+							for _, ec := range ext {
+								if v == ssa.Value(ec) {
+									dep = true
+								}
+							}
+						}
+						if !dep {
+							continue
+						}
+						// one side leaves the loop, or contains a second extraction (fallback)
+						for _, s := range b.Succs {
+							if rg.inLoop && !rg.blocks[s] {
+								guard = true
+							}
+							for _, ec := range ext {
+								if s == ec.Block() || s.Dominates(ec.Block()) {
+									if len(ext) > 1 {
+										guard = true
+									}
 								}
 							}
 						}
@@ -155,7 +190,7 @@ func runC04(c *Ctx) {
 				if f.Name() == "MoveAndAppendTo" {
 					return true
 				}
-				if cf := staticCalleeFn(ci); cf != nil && cf.Pkg == fn.Pkg && recvNamedOfFn(cf) == nil && strings.HasPrefix(cf.Name(), "extract") {
+				if isExtractionFn(staticCalleeFn(ci), fn.Pkg) {
 					// extraction applied to this request's payload
 					for _, a := range ci.Common().Args {
 						if isFieldAccess(a, r.T, r.payload) {
@@ -167,16 +202,23 @@ func runC04(c *Ctx) {
 			})
 			if len(moves) > 0 {
 				c.Rule("R3", "", "", 0)
-				setters := calls(fn, func(ci ssa.CallInstruction) bool {
-					cf := staticCalleeFn(ci)
-					return cf != nil && recvNamedOfFn(cf) == r.T && len(fieldStores(cf, r.T, "cachedSize")) > 0
-				})
-				direct := fieldStores(fn, r.T, "cachedSize")
-				// which request objects are updated
+				direct := fieldStores(fn, r.T, r.memo)
+				// which request objects are updated: by a setter called on them, or by a helper of the package that does
+				// the bookkeeping for the objects it is handed (`req.moveCachedSizeTo(dst, sz)`)
 				updated := map[ssa.Value]bool{}
-				for _, s := range setters {
-					updated[strip(s.Common().Args[0])] = true
-				}
+				allInstrs(fn, func(in ssa.Instruction) {
+					ci, ok := in.(*ssa.Call)
+					if !ok {
+						return
+					}
+					cf := staticCalleeFn(ci)
+					if cf == nil || cf.Pkg != fn.Pkg || len(cf.Params) != len(ci.Call.Args) {
+						return
+					}
+					for k := range memoUpdatedParams(cf, r.T, r.memo, 3, map[*ssa.Function]bool{}) {
+						updated[strip(ci.Call.Args[k])] = true
+					}
+				})
 				for _, s := range direct {
 					if fa, ok := s.Addr.(*ssa.FieldAddr); ok {
 						updated[strip(fa.X)] = true
@@ -203,7 +245,7 @@ func runC04(c *Ctx) {
 			}
 			// --- R3b: the memoised size is unit-less: it may only be consulted with the sizer threaded
 			// through MergeSplit (a parameter of the caller), never with a freshly chosen sizer
-			if len(fieldStores(fn, r.T, "cachedSize")) > 0 && fn.Signature.Results().Len() == 1 && len(fn.Params) == 2 {
+			if len(fieldStores(fn, r.T, r.memo)) > 0 && fn.Signature.Results().Len() == 1 && len(fn.Params) == 2 {
 				c.Rule("R3", "", "", 0)
 				for _, caller := range p.AllSrcFuncs(pk) {
 					for _, ci := range calls(caller, func(ci ssa.CallInstruction) bool { return staticCalleeFn(ci) == fn }) {
@@ -217,7 +259,7 @@ func runC04(c *Ctx) {
 			// --- R3c: what is subtracted from the cached size was measured with the sizer the cache is read with
 			for _, ci := range calls(fn, func(ci ssa.CallInstruction) bool {
 				cf := staticCalleeFn(ci)
-				return cf != nil && recvNamedOfFn(cf) == r.T && len(fieldStores(cf, r.T, "cachedSize")) > 0 && len(ci.Common().Args) == 2
+				return cf != nil && recvNamedOfFn(cf) == r.T && len(fieldStores(cf, r.T, r.memo)) > 0 && len(ci.Common().Args) == 2
 			}) {
 				arg := ci.Common().Args[1]
 				bo, ok := arg.(*ssa.BinOp)
@@ -246,7 +288,7 @@ func runC04(c *Ctx) {
 						}
 					case *ssa.Extract:
 						if ec, ok := x.Tuple.(*ssa.Call); ok {
-							if cf := staticCalleeFn(ec); cf != nil && strings.HasPrefix(cf.Name(), "extract") {
+							if cf := staticCalleeFn(ec); cf != nil && isExtractionFn(cf, cf.Pkg) {
 								same := false
 								for _, a := range ec.Call.Args {
 									if strip(a) == readSizer {
@@ -264,7 +306,22 @@ func runC04(c *Ctx) {
 				c.Check(okUnit, tag+"amount subtracted from the cached size in "+fnName(fn)+" is in the cache's unit", p.Pos(ci.Pos()), "measured by an extraction made with the threaded sizer", "the amount subtracted from the cached size was returned by an extraction made with a different sizer (e.g. the item-count fallback) than the one the cache is read with: units are mixed, the byte-sized cache shrinks by 1 per round and the split loop never ends")
 			}
 			// --- R4: merge
-			if strings.HasPrefix(fn.Name(), "merge") {
+			// the merge method: the method of the request type that is handed another request of the same type
+			isMerge := false
+			for _, prm := range fn.Params[1:] {
+				if _, isPtr := prm.Type().(*types.Pointer); isPtr && namedOf(prm.Type()) == r.T {
+					isMerge = true
+				}
+			}
+			if isMerge {
+				// … and that moves payload; a type none of whose candidates moves anything is reported below
+				mergeCand[r.T] = append(mergeCand[r.T], fn)
+				isMerge = len(callsNamed(fn, func(f *types.Func) bool { return f.Name() == "MoveAndAppendTo" })) > 0
+				if isMerge {
+					mergeSeen[r.T] = true
+				}
+			}
+			if isMerge {
 				c.Rule("R4", "", "", 0)
 				mv := callsNamed(fn, func(f *types.Func) bool { return f.Name() == "MoveAndAppendTo" })
 				ok := false
@@ -294,6 +351,16 @@ func runC04(c *Ctx) {
 				uncond := len(mv) == 1 && len(guardsOf(mv[0].Block())) == 0
 				c.Check(uncond, tag+"merge appends the source behind the destination, always: "+fnName(fn), p.Pos(fn.Pos()), "one unconditional MoveAndAppendTo", fmt.Sprintf("%d MoveAndAppendTo calls / conditional: the order of the merged request's resources depends on the inputs, but the batcher relies on the pending batch's data being in front (its callbacks ride on the first split result only) – a parked request's callback fires while part of its data is still pending and reports the wrong outcome", len(mv)))
 			}
+		}
+	}
+	for _, r := range reqs {
+		if !mergeSeen[r.T] {
+			c.Rule("R4", "", "", 0)
+			pos := "-"
+			if len(mergeCand[r.T]) > 0 {
+				pos = p.Pos(mergeCand[r.T][0].Pos())
+			}
+			c.Bad("["+r.T.Obj().Name()+"] merge moves the whole top-level slice", pos, "no method of the request type that is handed another request of its type moves that request's top-level slice (MoveAndAppendTo): merged data is lost")
 		}
 	}
 	runC04Batcher(c)
